@@ -472,8 +472,21 @@ func (in *Interp) mapSet(m *MapObj, k Value, v Value) {
 
 func (in *Interp) mapDelete(m *MapObj, k Value) {
 	ck, ok := in.canonKey(k)
-	if !ok {
-		in.unmodelled("map delete with symbolic key")
+	if !ok || m.SymKeys {
+		// symbolic key (or a map that has one): fork over "equals entry i" / "no such entry"
+		keys := append([]string(nil), m.Keys...)
+		conds := make([]*sym.Term, len(keys)+1)
+		var eqs []*sym.Term
+		for i, kk := range keys {
+			conds[i] = in.eqValues(k, m.Ent[kk].K)
+			eqs = append(eqs, conds[i])
+		}
+		conds[len(keys)] = in.B.Not(in.B.Or(eqs...))
+		choice := in.chooseN(conds)
+		if choice == len(keys) {
+			return
+		}
+		ck = keys[choice]
 	}
 	if _, ok := m.Ent[ck]; !ok {
 		return
